@@ -604,6 +604,15 @@ func (g *dgen) method(svc *spec.Service, idx int) *spec.Method {
 					g.feat("loc:" + loc.String() + "-array")
 				} else {
 					f = g.prim(loc)
+					if k := f.Type.Kind; k != spec.Bytes && k != spec.Any && t.Draw("alias-param", 6) == 0 {
+						// the parameter's type is a named primitive (Type("Token", String)): decoded as the
+						// primitive, converted to the named type on its way into the payload
+						g.seq++
+						u := &spec.UserType{Name: fmt.Sprintf("A%dAlias", g.seq), Attr: f}
+						g.d.Types = append(g.d.Types, u)
+						f = &spec.Attr{Type: &spec.Type{Kind: spec.User, Name: u.Name}}
+						g.feat("loc:" + loc.String() + "-alias")
+					}
 				}
 				f.Name = name
 				g.requiredOrDefault(f)
@@ -692,7 +701,11 @@ func (g *dgen) method(svc *spec.Service, idx int) *spec.Method {
 	}
 	verb := "GET"
 	if hasBody {
-		verb = []string{"POST", "PUT", "PATCH"}[t.Draw("verb-body", 3)]
+		// (a body under GET or DELETE is unusual but legal: goa generates both sides for it)
+		verb = []string{"POST", "PUT", "PATCH", "POST", "PUT", "PATCH", "POST", "GET", "DELETE"}[t.Draw("verb-body", 9)]
+		if verb == "GET" || verb == "DELETE" {
+			g.feat("verb:" + verb + "-with-body")
+		}
 	} else if t.Draw("verb-nobody", 3) == 0 {
 		verb = []string{"DELETE", "POST"}[t.Draw("verb2", 2)]
 	}
@@ -723,7 +736,7 @@ func (g *dgen) method(svc *spec.Service, idx int) *spec.Method {
 		// the same method reachable under a second path (and possibly verb)
 		v2 := verb
 		if hasBody && t.Draw("second-route-verb", 2) == 0 {
-			v2 = map[string]string{"POST": "PUT", "PUT": "PATCH", "PATCH": "POST"}[verb]
+			v2 = map[string]string{"POST": "PUT", "PUT": "PATCH", "PATCH": "POST", "GET": "POST", "DELETE": "PUT"}[verb]
 		}
 		m.Routes = append(m.Routes, &spec.Route{Verb: v2, Path: "/r2" + path})
 		g.feat("routes:two")
